@@ -10,6 +10,9 @@ R2  spec->code: TLC prints every history (bulk construction + insertions) over a
     TLC prints the enumerations / index maps of Combin.tla; the harness compares stat/combin with them.
 R3  code->spec: Hilbert tables and answers of the real trees on large lattice point sets are
     recorded and judged by TLC against HilbertTrace.tla / SpatialIndexTrace.tla.
+Barnes-Hut: BarnesHut.tla (single particle lists, theta = 0) and BarnesHutHist.tla (histories of one Plane / Volume
+    object: R1 theorems, R2 every maximal history in a bound replayed, R3 recorded long histories judged by
+    BarnesHutHistTrace.tla).
 """
 import json
 import os
@@ -67,12 +70,23 @@ INDEX = [
 ]
 KS = [1, 2, 3, 5]
 RS = [0, 1, 2, 4, 5, 8, 9, 13, 16, 25, 36]
-ALLINV = "SortOK NearestOK KNearestOK KMonotone WithinOK Unique BoxOK"
+ALLINV = "SortOK NearestOK KNearestOK KMonotone WithinOK Unique BoxOK BoxScanOK"
+
+
+def box_corners(dim, coords):
+    """Corner points of the DoBounded query boxes (every pair lo <= hi of them is a box): lattice corners (faces of
+    the box pass through stored points: ties on the splitting planes), a point between lattice points, one outside."""
+    lo, hi = coords[0], coords[-1]
+    mid = coords[len(coords) // 2]
+    cs = [[lo] * dim, [hi] * dim, [mid] * dim, [lo + 1] * dim, [lo - 1] * dim, [hi + 1] * dim]
+    if dim > 1:
+        cs += [[lo] + [hi] * (dim - 1), [mid] + [lo] * (dim - 1)]
+    return cs
 
 
 def index_subst(rng, dim, coords, mb, mt, nq, emit, invs):
     qs = queries(rng, dim, coords, nq)
-    return dict(DIM=dim, COORDS=enc_set([c + OFF for c in coords]), OFF=OFF, MAXBUILT=mb, MAXTOTAL=mt,
+    return dict(BOXES=enc_set({qcode(c) for c in box_corners(dim, coords)}),DIM=dim, COORDS=enc_set([c + OFF for c in coords]), OFF=OFF, MAXBUILT=mb, MAXTOTAL=mt,
                 QCODES=enc_set({qcode(q) for q in qs}), KS=enc_set(KS), RS=enc_set(RS),
                 EMIT="TRUE" if emit else "FALSE", INVS=invs)
 
@@ -155,11 +169,15 @@ def hilbert(ctx, bins, thorough):
 def index_trace(ctx, bins, thorough):
     """code->spec: large lattice point sets (dims 1..6, up to 2000 points, duplicates), bulk build +
     inserts + queries on the live kdtree and a vptree of the same bag, judged by TLC."""
-    runs = [("a", ["runs=6", "maxn=700", "queries=5"])]
+    runs = [("a", ["runs=6", "maxn=700", "queries=5"], "index")]
     if thorough:
-        runs = [("a", ["runs=12", "maxn=2000", "queries=8"]), ("b", ["runs=12", "maxn=1200", "queries=10"])]
+        runs = [("a", ["runs=12", "maxn=2000", "queries=8"], "index"), ("b", ["runs=12", "maxn=1200", "queries=10"], "index")]
+    # box queries (kdtree.DoBounded) are recorded in files of their own: a rejection there has its own signature
+    runs += [("box", ["runs=12", "maxn=400", "queries=6", "boxes=only"], "kdtree.DoBounded")]
+    if thorough:
+        runs += [("box-b", ["runs=24", "maxn=2000", "queries=10", "boxes=only"], "kdtree.DoBounded")]
     for bn, b in bins.items():
-        for name, args in runs:
+        for name, args, what in runs:
             tr = os.path.join(ctx.work, "index-trace-%s-%s.ndjson" % (name, bn))
             summ = ctx.record(b, "spatial-trace", tr, args + ["salt=" + name], name="R3 record index trace %s [%s]" % (name, bn))
             ok, st = ctx.validate("spatial/SpatialIndexTrace.tla", "spatial/SpatialIndexTrace.cfg", tr,
@@ -170,10 +188,9 @@ def index_trace(ctx, bins, thorough):
                 ctx.nontrivial += summ.get("traces", 0)
             else:
                 dst = keep_trace(ctx, tr, "index-trace-%s-%s" % (name, bn))
-                ctx.violation("spatial:index:trace-rejected", st.get("detail", "")[:700],
+                ctx.violation("spatial:%s:trace-rejected" % what, st.get("detail", "")[:700],
                               {"trace": dst, "spec": "spatial/SpatialIndexTrace.tla",
                                "cfg_file": "spatial/SpatialIndexTrace.cfg", "cfg": {}})
-
 
 def barneshut(ctx, bins, thorough):
     """theta = 0: ForceOn equals the spec's direct pairwise sum (exact integer cubic force law)."""
@@ -191,6 +208,85 @@ def barneshut(ctx, bins, thorough):
             ctx.replay(b, "barneshut", cases, [], name="R2 replay barneshut %s [%s]" % (name, bn))
 
 
+BH_P2 = "{520,585,650,333,1800}"            # (0,0) (1,1) (2,2) (-3,5) (20,0)
+BH_P3 = "{33288,37449,41610,115209,21005}"  # (0,0,0) (1,1,1) (2,2,2) (20,0,1) (-3,0,5)
+BH_TL = 12                                  # the tiny opening angle is 2^-12 (ASSUME ThetaOpensEveryCell)
+BH_INVS = "TypeOK LogFaithful TotalLaw OrderFree TinyOnlyFresh"
+# name, dim, coords, masses, MaxN, MaxInit, MaxOps (entries, "lit" included), StartBuilt, shards, tier
+BH_HIST = [
+    ("2d-2x2-m12-n2-ops3", 2, "{8,9}", "{1,2}", 2, 1, 4, False, 1, "quick"),
+    ("2d-3x3-built-n4-ops1", 2, "{8,9,10}", "{1}", 4, 3, 3, True, 1, "quick"),
+    ("3d-2x2x2-m12-n2-ops2", 3, "{8,9}", "{1,2}", 2, 1, 3, False, 1, "quick"),
+    ("3d-2x2x2-built-n4-ops1", 3, "{8,9}", "{1}", 4, 3, 3, True, 1, "quick"),
+    ("2d-2x2-m12-n3-ops2", 2, "{8,9}", "{1,2}", 3, 2, 3, False, 1, "thorough"),
+    ("2d-2x2-m1-n2-ops4", 2, "{8,9}", "{1}", 2, 1, 5, False, 1, "thorough"),
+    ("2d-4x4-built-n3-ops1", 2, "{8,9,10,11}", "{1}", 3, 2, 3, True, 1, "thorough"),
+    ("3d-2x2x2-m12-built-n2-ops2", 3, "{8,9}", "{1,2}", 2, 1, 4, True, 1, "thorough"),
+    ("3d-3x3x3-built-n3-ops1", 3, "{8,9,10}", "{1}", 3, 2, 3, True, 2, "thorough"),
+]
+
+
+def bh_subst(dim, coords, masses, maxn, maxinit, maxops, built, shard, nshards, emit, invs):
+    return dict(DIM=dim, COORDS=coords, OFF=OFF, MASSES=masses, MAXN=maxn, MAXINIT=maxinit, MAXOPS=maxops,
+                PROBES=BH_P2 if dim == 2 else BH_P3, STARTBUILT="TRUE" if built else "FALSE", THETALOG2=BH_TL,
+                SHARD=shard, NSHARDS=nshards, EMIT="TRUE" if emit else "FALSE", INVS=invs)
+
+
+def barneshut_hist(ctx, bins, thorough):
+    """Histories of one Plane / Volume object (BarnesHutHist.tla): Reset, and Move / SetMass / Append / Remove
+    without Reset; after every step theta = 0 on every member and on external probes must be the direct sum over
+    the CURRENT slice, and so must the tiny theta when the tree is fresh (or was never built)."""
+    spec, cfg = "spatial/BarnesHutHist.tla", "spatial/BarnesHutHist_model.cfg"
+    # R1: theorems of the specification on every history of a bound; every action must be taken
+    for name, sub in [("2d", bh_subst(2, "{8,9}", "{1,2}", 2, 1, 4, False, 0, 1, False, BH_INVS)),
+                      ("3d", bh_subst(3, "{8,9}", "{1,2}", 2, 1, 3, False, 0, 1, False, BH_INVS))]:
+        st = ctx.tlc(spec, cfg, name="R1 BarnesHutHist theorems " + name, subst=sub, workers=4, coverage=True)
+        never = [a for a in st.get("actions_never_taken", []) if "BarnesHutHist" in a]
+        if never:
+            from vlib import Undecided
+            raise Undecided("vacuous: actions never taken in R1 BarnesHutHist %s: %s" % (name, never))
+
+    # R2: every maximal history in the bound, replayed on real objects (three ways of altering the slice,
+    # literal + Reset and the constructor)
+    def one(name, dim, coords, masses, maxn, maxinit, maxops, built, shard, nshards):
+        cases = ctx.gen(spec, cfg, name="R2 gen barneshut histories %s shard %d/%d" % (name, shard, nshards),
+                        subst=bh_subst(dim, coords, masses, maxn, maxinit, maxops, built, shard, nshards, True, "EmitHist"))
+        for bn, b in bins.items():
+            ctx.replay(b, "barneshut-hist", cases, ["modes=0,1,2"],
+                       name="R2 replay barneshut histories %s shard %d/%d [%s]" % (name, shard, nshards, bn))
+    thunks = []
+    for name, dim, coords, masses, maxn, maxinit, maxops, built, nshards, tier in BH_HIST:
+        if tier == "thorough" and not thorough:
+            continue
+        for sh in range(nshards):
+            thunks.append(lambda a=(name, dim, coords, masses, maxn, maxinit, maxops, built, sh, nshards): one(*a))
+    ctx.parallel(thunks, width=4)
+
+    # R3: seeded long histories on the lattice [-8, 8]^dim (up to 10-14 particles), judged by TLC
+    runs = [("a", 2, 30, 50, 10), ("a", 3, 30, 50, 10)]
+    if thorough:
+        runs = [("a", 2, 120, 80, 14), ("a", 3, 120, 80, 14), ("b", 2, 200, 30, 6), ("b", 3, 200, 30, 6)]
+    for bn, b in bins.items():
+        for salt, dim, nruns, nops, maxn in runs:
+            tr = os.path.join(ctx.work, "bh-trace-%s-%dd-%s.ndjson" % (salt, dim, bn))
+            summ = ctx.record(b, "barneshut-trace", tr, ["dim=%d" % dim, "runs=%d" % nruns, "ops=%d" % nops, "maxn=%d" % maxn,
+                                                         "range=5", "tl=%d" % BH_TL, "salt=" + salt],
+                              name="R3 record barneshut histories %s %dd [%s]" % (salt, dim, bn))
+            sub = dict(DIM=dim, COORDS="{0,16}", OFF=OFF, THETALOG2=BH_TL)   # actual coordinates -8 .. 8
+            ok, st = ctx.validate("spatial/BarnesHutHistTrace.tla", "spatial/BarnesHutHistTrace.cfg", tr, subst=sub,
+                                  name="R3 validate barneshut histories %s %dd [%s]" % (salt, dim, bn), timeout=1500)
+            if ok:
+                ctx.traces += summ.get("traces", 0)
+                ctx.cases += summ.get("traces", 0)
+                ctx.nontrivial += summ.get("traces", 0)
+            else:
+                dst = keep_trace(ctx, tr, "bh-trace-%s-%dd-%s" % (salt, dim, bn))
+                ctx.violation("spatial:barneshut.%s.history:trace-rejected" % ("Plane" if dim == 2 else "Volume"),
+                              st.get("detail", "")[:700],
+                              {"trace": dst, "spec": "spatial/BarnesHutHistTrace.tla",
+                               "cfg_file": "spatial/BarnesHutHistTrace.cfg", "cfg": sub})
+
+
 def run(ctx):
     os.makedirs(os.path.join(SPECS, "lib"), exist_ok=True)
     thorough = ctx.tier == "thorough"
@@ -203,6 +299,7 @@ def run(ctx):
     hilbert(ctx, bins, thorough)
     index_trace(ctx, bins, thorough)
     barneshut(ctx, bins, thorough)
+    barneshut_hist(ctx, bins, thorough)
 
     ctx.assumptions += [
         "TLC/SANY and the CommunityModules Json module are trusted",
@@ -218,7 +315,11 @@ def run(ctx):
              "variant; non-trivial = at least two stored points. R2 combin: one case = one enumeration (one (n,k) / dims "
              "vector / Pascal row) with all its index-map checks; non-trivial = more than one object. R2 barneshut: one "
              "case = one particle list with the forces on all its particles and 4 probes; non-trivial = >= 2 particles. "
-             "R3: one trace = one Hilbert table (full curve or window) / one recorded index history.",
+             "R2 barneshut histories: one case = one maximal history of one Plane / Volume object (Reset, Move, SetMass, Append, "
+             "Remove) with the answers of all queries after every step, replayed under 3 ways of altering the slice and 2 ways "
+             "of construction; non-trivial = some query is asked while the tree does not match the slice (stale / failed Reset). "
+             "R3: one trace = one Hilbert table (full curve or window) / one recorded index history / one recorded Barnes-Hut "
+             "object history.",
         exhaustive=True)
 
 
